@@ -1246,7 +1246,9 @@ _PREFIX_RE = re.compile(r"^In call to [^:]*: ")
 
 
 def call_diag_set(ds) -> frozenset:
-    return frozenset((d.code, _PREFIX_RE.sub("", d.description)) for d in ds)
+    # `~U` / `U`: how a TypeVar prints depends on whether typing made it for  def f[U]  or the def route made its own
+    # for the same declaration (only the PEP 695 headers use the name U)
+    return frozenset((d.code, re.sub(r"~(U\b)", r"\1", _PREFIX_RE.sub("", d.description))) for d in ds)
 
 
 def diag_class(s: frozenset) -> str:
